@@ -8,6 +8,7 @@ import (
 	"go/printer"
 	"go/token"
 	"go/types"
+	"os"
 	"sort"
 	"strings"
 
@@ -64,8 +65,15 @@ func Normalize(dir string, overlay map[string][]byte, baseline map[string]bool) 
 	for k, v := range overlay {
 		cur[k] = v
 	}
-	for round := 0; round < 4; round++ {
-		edits, inl, skipped := inlineRound(p, baseline)
+	for round := 0; round < 7; round++ {
+		// functions that received inlined code in an earlier round (only their pointers are forwarded)
+		touched := map[string]bool{}
+		for _, l := range rep.Inlined {
+			if i := strings.Index(l, " <- "); i > 0 {
+				touched[l[:i]] = true
+			}
+		}
+		edits, inl, skipped := inlineRound(p, baseline, touched)
 		rep.Skipped = append(rep.Skipped, skipped...)
 		if len(edits) == 0 {
 			break
@@ -106,7 +114,7 @@ type inlineEdit struct {
 }
 
 // inlineRound computes one round of replacements for every product file.
-func inlineRound(p *Prog, baseline map[string]bool) (map[string][]byte, []string, []string) {
+func inlineRound(p *Prog, baseline map[string]bool, touched map[string]bool) (map[string][]byte, []string, []string) {
 	out := map[string][]byte{}
 	var inlined, skipped []string
 	mergedInfoCache = map[[2]*packages.Package]*types.Info{}
@@ -116,6 +124,11 @@ func inlineRound(p *Prog, baseline map[string]bool) (map[string][]byte, []string
 		scal, scalarized := scalarizeStructLocals(p, pk, baseline)
 		inlined = append(inlined, scalarized...)
 		for f, es := range scal {
+			bundle[f] = append(bundle[f], es...)
+		}
+		fwd, forwarded := forwardPointers(p, pk, touched)
+		inlined = append(inlined, forwarded...)
+		for f, es := range fwd {
 			bundle[f] = append(bundle[f], es...)
 		}
 		for _, file := range pk.Syntax {
@@ -998,9 +1011,39 @@ func (c *inlCtx) tryCall(st ast.Stmt, call *ast.CallExpr, kind callKind, as *ast
 			return
 		}
 	}
-	if sig.TypeParams() != nil || sig.RecvTypeParams() != nil {
-		c.skip(call, name, "generic")
+	if sig.RecvTypeParams() != nil {
+		c.skip(call, name, "method of a generic type")
 		return
+	}
+	// a generic function: the type arguments of this call (explicit or inferred) stand for the type parameters, in the
+	// types that are printed and in the body
+	tparamText := map[string]string{}
+	tparamObj := map[types.Object]int{}
+	var targs *types.TypeList
+	if sig.TypeParams() != nil {
+		var fid *ast.Ident
+		fun := ast.Unparen(call.Fun)
+		if ix, isIx := fun.(*ast.IndexExpr); isIx {
+			fun = ast.Unparen(ix.X)
+		}
+		if ix, isIx := fun.(*ast.IndexListExpr); isIx {
+			fun = ast.Unparen(ix.X)
+		}
+		switch t := fun.(type) {
+		case *ast.Ident:
+			fid = t
+		case *ast.SelectorExpr:
+			fid = t.Sel
+		}
+		inst, has := info.Instances[fid]
+		if fid == nil || !has || inst.TypeArgs == nil || inst.TypeArgs.Len() != sig.TypeParams().Len() {
+			c.skip(call, name, "generic call without resolved type arguments")
+			return
+		}
+		targs = inst.TypeArgs
+		for i := 0; i < sig.TypeParams().Len(); i++ {
+			tparamObj[sig.TypeParams().At(i).Obj()] = i
+		}
 	}
 	calleeTF := c.p.Fset.File(body.Pos())
 	calleeSrc, err := c.p.ReadAbs(calleeTF.Name())
@@ -1425,10 +1468,43 @@ func (c *inlCtx) tryCall(st ast.Stmt, call *ast.CallExpr, kind callKind, as *ast
 		typeOK = false
 		return pkg.Name()
 	}
-	typeStr := func(t types.Type) string {
+	typeStr0 := func(t types.Type) string {
 		curType = t
 		defer func() { curType = nil }()
 		return types.TypeString(t, qual)
+	}
+	if targs != nil {
+		for i := 0; i < sig.TypeParams().Len(); i++ {
+			tparamText[sig.TypeParams().At(i).Obj().Name()] = typeStr0(targs.At(i))
+		}
+	}
+	typeStr := func(t types.Type) string {
+		out := typeStr0(t)
+		if len(tparamText) == 0 {
+			return out
+		}
+		// a type parameter is printed by its name: replace whole identifiers that are not qualified
+		var sb strings.Builder
+		for i := 0; i < len(out); {
+			ch := out[i]
+			if ch == '_' || ch >= 'a' && ch <= 'z' || ch >= 'A' && ch <= 'Z' {
+				j := i
+				for j < len(out) && (out[j] == '_' || out[j] >= 'a' && out[j] <= 'z' || out[j] >= 'A' && out[j] <= 'Z' || out[j] >= '0' && out[j] <= '9') {
+					j++
+				}
+				word := out[i:j]
+				if rep, isTP := tparamText[word]; isTP && (i == 0 || out[i-1] != '.') {
+					sb.WriteString(rep)
+				} else {
+					sb.WriteString(word)
+				}
+				i = j
+				continue
+			}
+			sb.WriteByte(ch)
+			i++
+		}
+		return sb.String()
 	}
 	// ---- targets of the results
 	nres := sig.Results().Len()
@@ -1718,6 +1794,11 @@ func (c *inlCtx) tryCall(st ast.Stmt, call *ast.CallExpr, kind callKind, as *ast
 		}
 	}
 	for i, id := range origIds {
+		if o := info.Uses[id]; o != nil {
+			if k, isTP := tparamObj[o]; isTP {
+				freshIds[i].Name = "(" + tparamText[sig.TypeParams().At(k).Obj().Name()] + ")"
+			}
+		}
 		if crossIds[id] {
 			freshIds[i].Name = crossQual + "." + id.Name
 		}
@@ -3097,4 +3178,225 @@ func namedFrom(t types.Type, pkg *types.Package) string {
 		return ""
 	}
 	return walk(t)
+}
+
+// forwardPointers undoes "hand out a pointer to the field instead of the field": a local pointer p with exactly one
+// definition `p = &E` (E a variable or a chain of field selections whose root variables are never reassigned), which is
+// otherwise only dereferenced (`*p`, `p.f`), is replaced at every use by E itself. `*p = v` becomes `E = v`. One
+// variable per function and round; chains (p = &q.f with q = &x) disappear over successive rounds.
+func forwardPointers(p *Prog, pk *packages.Package, touched map[string]bool) (map[*ast.File][]inlineEdit, []string) {
+	out := map[*ast.File][]inlineEdit{}
+	var done []string
+	info := pk.TypesInfo
+	for _, file := range pk.Syntax {
+		tf := p.Fset.File(file.Pos())
+		if tf == nil || isGenerated(tf.Name()) || strings.HasSuffix(tf.Name(), "_test.go") {
+			continue
+		}
+		src, err := p.ReadAbs(tf.Name())
+		if err != nil {
+			continue
+		}
+		text := func(n ast.Node) string { return string(src[tf.Offset(n.Pos()):tf.Offset(n.End())]) }
+		for _, d := range file.Decls {
+			fd, ok := d.(*ast.FuncDecl)
+			if !ok || fd.Body == nil || !touched[funcKey(pk, fd)] {
+				continue
+			}
+			chosen := map[*types.Var]bool{}
+			// definitions and plain assignments per variable
+			type def struct {
+				stmt ast.Stmt
+				rhs  ast.Expr
+			}
+			defs := map[*types.Var][]def{}
+			assigned := map[*types.Var]int{} // assignments other than the declaration (and range clauses)
+			var order []*types.Var
+			note := func(lhs ast.Expr, rhs ast.Expr, st ast.Stmt, isDecl bool) {
+				id, isId := ast.Unparen(lhs).(*ast.Ident)
+				if !isId {
+					return
+				}
+				var obj types.Object = info.Defs[id]
+				if obj == nil {
+					obj = info.Uses[id]
+				}
+				v, isV := obj.(*types.Var)
+				if !isV || v.IsField() {
+					return
+				}
+				if rhs != nil {
+					if _, seen := defs[v]; !seen {
+						order = append(order, v)
+					}
+					defs[v] = append(defs[v], def{st, rhs})
+				}
+				if !isDecl {
+					assigned[v]++
+				}
+			}
+			ast.Inspect(fd.Body, func(n ast.Node) bool {
+				switch t := n.(type) {
+				case *ast.AssignStmt:
+					for i, l := range t.Lhs {
+						var r ast.Expr
+						if len(t.Lhs) == len(t.Rhs) {
+							r = t.Rhs[i]
+						}
+						note(l, r, t, t.Tok == token.DEFINE && identDef(info, l))
+						if r == nil {
+							if v := varOf(info, l); v != nil {
+								assigned[v] += 2
+							}
+						}
+					}
+				case *ast.DeclStmt:
+					if gd, isG := t.Decl.(*ast.GenDecl); isG && gd.Tok == token.VAR {
+						for _, sp := range gd.Specs {
+							if vs, isVS := sp.(*ast.ValueSpec); isVS {
+								for i, nm := range vs.Names {
+									var r ast.Expr
+									if len(vs.Values) == len(vs.Names) {
+										r = vs.Values[i]
+									}
+									note(nm, r, t, true)
+								}
+							}
+						}
+					}
+				case *ast.IncDecStmt:
+					if v := varOf(info, t.X); v != nil {
+						assigned[v] += 2
+					}
+				}
+				return true
+			})
+		nextVar:
+			for _, v := range order {
+				if _, isPtr := v.Type().Underlying().(*types.Pointer); !isPtr || len(defs[v]) != 1 {
+					continue
+				}
+				df := defs[v][0]
+				if os.Getenv("SOPVERIF_DEBUG") != "" {
+					fmt.Fprintf(os.Stderr, "forwardPointers cand %s %s assigned=%d\n", funcKey(pk, fd), v.Name(), assigned[v])
+				}
+				u, isU := ast.Unparen(df.rhs).(*ast.UnaryExpr)
+				if !isU || u.Op != token.AND {
+					continue
+				}
+				// E: identifiers and field selections only; every root variable is never reassigned
+				target := ast.Unparen(u.X)
+				okE := true
+				ast.Inspect(target, func(n ast.Node) bool {
+					if n == nil {
+						return true
+					}
+					switch t := n.(type) {
+					case *ast.Ident:
+						if rv := varOf(info, t); rv != nil && !rv.IsField() {
+							if assigned[rv] > 0 && len(defs[rv]) > 0 && !(assigned[rv] == 1 && len(defs[rv]) == 1) {
+								okE = false
+							}
+							if assigned[rv] > 1 {
+								okE = false
+							}
+						}
+					case *ast.SelectorExpr, *ast.ParenExpr:
+					default:
+						okE = false
+					}
+					return okE
+				})
+				ast.Inspect(target, func(n ast.Node) bool {
+					if id, isId := n.(*ast.Ident); isId {
+						if rv := varOf(info, id); rv != nil && chosen[rv] {
+							okE = false // depends on a pointer that is forwarded in this round: next round
+						}
+					}
+					return true
+				})
+				if !okE {
+					continue
+				}
+				// a definition by assignment (not declaration) counts once in `assigned`: nothing else may assign p
+				if assigned[v] > 1 {
+					continue
+				}
+				etext := "(" + text(target) + ")"
+				var edits []inlineEdit
+				var stack []ast.Node
+				bad := false
+				ast.Inspect(fd.Body, func(n ast.Node) bool {
+					if n == nil {
+						stack = stack[:len(stack)-1]
+						return true
+					}
+					if id, isId := n.(*ast.Ident); isId && info.Uses[id] == types.Object(v) {
+						parent := stack[len(stack)-1]
+						switch pt := parent.(type) {
+						case *ast.StarExpr:
+							edits = append(edits, inlineEdit{tf.Offset(pt.Pos()), tf.Offset(pt.End()), etext})
+						case *ast.SelectorExpr:
+							if pt.X == ast.Expr(id) {
+								edits = append(edits, inlineEdit{tf.Offset(id.Pos()), tf.Offset(id.End()), etext})
+							} else {
+								bad = true
+							}
+						case *ast.AssignStmt:
+							// the defining assignment itself (p on the left)
+							onLeft := false
+							for _, l := range pt.Lhs {
+								if l == ast.Expr(id) {
+									onLeft = true
+								}
+							}
+							if !onLeft || ast.Stmt(pt) != df.stmt {
+								bad = true
+							}
+						default:
+							bad = true
+						}
+					}
+					stack = append(stack, n)
+					return true
+				})
+				if os.Getenv("SOPVERIF_DEBUG") != "" {
+					fmt.Fprintf(os.Stderr, "forwardPointers %s %s bad=%v edits=%d\n", funcKey(pk, fd), v.Name(), bad, len(edits))
+				}
+				if bad || len(edits) == 0 {
+					continue nextVar
+				}
+				if ds, isDecl := df.stmt.(*ast.DeclStmt); isDecl && len(ds.Decl.(*ast.GenDecl).Specs) == 1 && len(ds.Decl.(*ast.GenDecl).Specs[0].(*ast.ValueSpec).Names) == 1 {
+					// `var p = &E` with nothing left that uses p: the declaration goes (taking the address of E would
+					// otherwise stay in the code for no reason)
+					edits = append(edits, inlineEdit{tf.Offset(df.stmt.Pos()), tf.Offset(df.stmt.End()), ""})
+				} else {
+					// keep the (now unused) pointer variable alive
+					edits = append(edits, inlineEdit{tf.Offset(df.stmt.End()), tf.Offset(df.stmt.End()), "\n_ = " + v.Name()})
+				}
+				out[file] = append(out[file], edits...)
+				done = append(done, funcKey(pk, fd)+" <- pointer "+v.Name()+" = &"+text(target)+" (forwarded)")
+				chosen[v] = true
+			}
+		}
+	}
+	return out, done
+}
+
+func varOf(info *types.Info, e ast.Expr) *types.Var {
+	id, ok := ast.Unparen(e).(*ast.Ident)
+	if !ok {
+		return nil
+	}
+	var obj types.Object = info.Defs[id]
+	if obj == nil {
+		obj = info.Uses[id]
+	}
+	v, _ := obj.(*types.Var)
+	return v
+}
+
+func identDef(info *types.Info, e ast.Expr) bool {
+	id, ok := ast.Unparen(e).(*ast.Ident)
+	return ok && info.Defs[id] != nil
 }
